@@ -253,7 +253,7 @@ fn c02(tier: &str) -> i32 {
     plans.extend(plans_c05(th, &full, &c3));
     let (agg, scopes, complete) = run_plans(&rep, &["C02"], &plans, deadline(&rep, 55, 1500));
     let (par_cov, par_ok) = crate::sched::c02_parallel_part(&rep);
-    let (all_cov, all_ok, _, _) = crate::sched::all_part(&rep, "C02", crate::sched::CutMode::None, false, false, 8.0, 600.0);
+    let (all_cov, all_ok, _, _) = crate::sched::all_part(&rep, "C02", crate::sched::CutMode::None, false, false, 8.0, 300.0);
     let par_ok = par_ok && all_ok;
     let mut cov_extra = json!({"parallel_part": par_cov, "all": all_cov});
     let _ = &mut cov_extra;
@@ -310,7 +310,7 @@ fn c05(tier: &str) -> i32 {
     let plans = plans_c05(th, &Cfg::full(&W4), &Cfg::full(&W3));
     let (agg, scopes, complete) = run_plans(&rep, &["C05"], &plans, deadline(&rep, 40, 1200));
     let (par_cov, par_ok) = crate::sched::c05_parallel_part(&rep);
-    let (all_cov, all_ok, _, _) = crate::sched::all_part(&rep, "C05", crate::sched::CutMode::EveryPoll, false, false, 12.0, 1200.0);
+    let (all_cov, all_ok, _, _) = crate::sched::all_part(&rep, "C05", crate::sched::CutMode::EveryPoll, false, false, 12.0, 600.0);
     let (a1, s1, c1) = run_plans(&rep, &["C05"], &par1_plans(th, Mode::Cutoffs, false), deadline(&rep, 12, 600));
     let mut cov = cov_common(&agg, scopes, complete && par_ok && c1 && all_ok);
     cov["all_interleavings_part"] = all_cov;
@@ -362,7 +362,7 @@ fn c09(tier: &str) -> i32 {
     }
     let (agg, scopes, complete) = run_plans(&rep, &["C09"], &plans, deadline(&rep, 40, 1200));
     let (par_cov, par_ok) = crate::sched::c09_parallel_part(&rep);
-    let (all_cov, all_ok, _, _) = crate::sched::all_part(&rep, "C09", crate::sched::CutMode::None, false, true, 10.0, 900.0);
+    let (all_cov, all_ok, _, _) = crate::sched::all_part(&rep, "C09", crate::sched::CutMode::None, false, true, 10.0, 400.0);
     let (a1, s1, c1) = run_plans(&rep, &["C09"], &par1_plans(th, Mode::Plain, false), deadline(&rep, 12, 600));
     let mut cov = cov_common(&agg, scopes, complete && par_ok && c1 && all_ok);
     cov["all_interleavings_part"] = all_cov;
@@ -397,7 +397,7 @@ fn c14(tier: &str) -> i32 {
     }
     let (agg, scopes, complete) = run_plans(&rep, &["C14"], &plans, deadline(&rep, 40, 1200));
     let (par_cov, par_ok) = crate::sched::c14_parallel_part(&rep);
-    let (all_cov, all_ok, _, _) = crate::sched::all_part(&rep, "C14", crate::sched::CutMode::None, true, false, 8.0, 600.0);
+    let (all_cov, all_ok, _, _) = crate::sched::all_part(&rep, "C14", crate::sched::CutMode::None, true, false, 8.0, 300.0);
     let (a1, s1, c1) = run_plans(&rep, &["C14"], &par1_plans(th, Mode::Primal, false), deadline(&rep, 15, 600));
     let mut cov = cov_common(&agg, scopes, complete && par_ok && c1 && all_ok);
     cov["all_interleavings_part"] = all_cov;
